@@ -106,3 +106,43 @@ impl AsRefPath for str {
     #[verifier::external_body]
     fn as_ref(&self) -> (r: &Path) { unimplemented!() }
 }
+
+// ---- further std Path API, without specifications: code that starts to use these type-checks, and
+// ---- whatever the contracts need about the results is then simply not provable (a named obligation
+// ---- fails) instead of the unit being rejected
+#[verifier::external_body]
+pub struct StripPrefixError { _p: () }
+impl Path {
+    #[verifier::external_body]
+    pub fn strip_prefix<P: AsRefPath>(&self, base: P) -> (r: Result<&Path, StripPrefixError>) { unimplemented!() }
+    #[verifier::external_body]
+    pub fn join<P: AsRefPath>(&self, p: P) -> (r: PathBuf) { unimplemented!() }
+    #[verifier::external_body]
+    pub fn starts_with<P: AsRefPath>(&self, base: P) -> (r: bool) { unimplemented!() }
+    #[verifier::external_body]
+    pub fn ends_with<P: AsRefPath>(&self, base: P) -> (r: bool) { unimplemented!() }
+    #[verifier::external_body]
+    pub fn parent(&self) -> (r: Option<&Path>) { unimplemented!() }
+    #[verifier::external_body]
+    pub fn file_name(&self) -> (r: Option<&OsStr>) { unimplemented!() }
+    #[verifier::external_body]
+    pub fn is_relative(&self) -> (r: bool) ensures r == !(self@.len() > 0 && self@[0] == 47u8) { unimplemented!() }
+}
+impl PathBuf {
+    #[verifier::external_body]
+    pub fn strip_prefix<P: AsRefPath>(&self, base: P) -> (r: Result<&Path, StripPrefixError>) { unimplemented!() }
+    #[verifier::external_body]
+    pub fn starts_with<P: AsRefPath>(&self, base: P) -> (r: bool) { unimplemented!() }
+    #[verifier::external_body]
+    pub fn ends_with<P: AsRefPath>(&self, base: P) -> (r: bool) { unimplemented!() }
+    #[verifier::external_body]
+    pub fn parent(&self) -> (r: Option<&Path>) { unimplemented!() }
+    #[verifier::external_body]
+    pub fn file_name(&self) -> (r: Option<&OsStr>) { unimplemented!() }
+}
+impl PartialEq<&Path> for PathBuf { #[verifier::external_body] fn eq(&self, other: &&Path) -> (r: bool) { unimplemented!() } }
+impl PartialEq<PathBuf> for &Path { #[verifier::external_body] fn eq(&self, other: &PathBuf) -> (r: bool) { unimplemented!() } }
+impl PartialEq<Path> for PathBuf { #[verifier::external_body] fn eq(&self, other: &Path) -> (r: bool) { unimplemented!() } }
+impl PartialEq for Path { #[verifier::external_body] fn eq(&self, other: &Path) -> (r: bool) { unimplemented!() } }
+impl PartialEq for OsStr { #[verifier::external_body] fn eq(&self, other: &OsStr) -> (r: bool) { unimplemented!() } }
+impl PartialEq for OsString { #[verifier::external_body] fn eq(&self, other: &OsString) -> (r: bool) { unimplemented!() } }
